@@ -57,8 +57,8 @@ for cont in (0, 1):
                         if not want <= readable and all(x == 0 for x in rets[i:i + 2]) and i + 1 < len(rets):
                             print('op=%%s after=%%d persist=%%d cont=%%d: call %%d accepted, its samples are not readable, and the next call reported no error: %%s' %% (op, after, persist, cont, i, rets)); bad = 1
                     first_fail = next((j for j, x in enumerate(rets) if x != 0), None)
-                if first_fail is not None and any(x == 0 for x in rets[first_fail + 1:]) and rets[first_fail] in (-6,):
-                    pass
+                if first_fail is not None and any(x == 0 for x in rets[first_fail + 1:]):
+                    print('op=%%s after=%%d persist=%%d cont=%%d: a write was accepted after a reported I/O failure: %%s' %% (op, after, persist, cont, rets)); bad = 1
 shutil.rmtree(top, ignore_errors=True)
 sys.exit(1 if bad else 0)
 '''
